@@ -12,7 +12,7 @@ RULE = ("random histories of 10-45 operations biased towards vectors built over 
         "a write happened while storage was really shared, or an object was collected before a later successful write")
 ASSUMED = ["weak references die exactly at collection; id() of a live object is unique (CPython)",
            "the registry is compared through its live view (dead weak references are invisible to every registry operation)"]
-MIX = {"fillna": 1, "dropna": 1, "vcat": 2, "newvec": 8, "newtab_dict": 2, "newtab_vecs": 2, "copy": 2, "slice": 3, "colview": 3, "stack": 2, "setv": 12,
+MIX = {"sel2d": 2, "fillna": 1, "dropna": 1, "vcat": 2, "newvec": 8, "newtab_dict": 2, "newtab_vecs": 2, "copy": 2, "slice": 3, "colview": 3, "stack": 2, "setv": 12,
        "sett": 3, "setattr": 4, "fp": 1, "read": 1, "drop": 5, "cycle_drop": 3, "gc": 2, "math": 1, "sort": 1}
 
 
